@@ -16,7 +16,7 @@ pub fn def() -> CheckDef {
         salt: 0xC08,
         level: "exploration",
         rule: "random networks x closed (plain or extended) formulae x 1..5 composed rewrites: bijective renaming of all state variables (also onto \
-               x/xx/xxx in a different order), extra blanks at token boundaries, redundant parentheses, only the parentheses the grammar needs (chains of right-associative operators, unary prefixes, hybrid operators extending to the right), long vs short hybrid spellings, \
+               x/xx/xxx in a different order), alpha-renaming binder by binder (sibling scopes get different names, more names than nesting depth), extra blanks at token boundaries, redundant parentheses, only the parentheses the grammar needs (chains of right-associative operators, unary prefixes, hybrid operators extending to the right), long vs short hybrid spellings, \
                alternative constant spellings. The raw and the sanitised result of the rewritten text must be the identical BDD as for the \
                canonical text. Non-trivial: the result is neither empty nor the unit set and the rewrite changed the text; distinct by \
                (network, text, rewritten text).",
@@ -35,6 +35,7 @@ pub fn def() -> CheckDef {
                 ("rewrite_long_hybrids", 100 * m),
                 ("rewrite_constants", 100 * m),
                 ("rewrite_fewer_parens", 300 * m),
+                ("rewrite_renaming_more_names_than_depth", 50 * m),
             ]
         },
         run,
@@ -111,6 +112,17 @@ fn run(rng: &mut Rng, idx: u64, tier: Tier) -> CaseOut {
             kinds.push("rewrite_renaming_permutes_internal_names");
         }
     }
+    if !names.is_empty() && rng.chance(1, 3) {
+        // alpha-renaming binder by binder: sibling scopes get different names (more names than nesting depth)
+        let pool: Vec<String> = ["x", "xx", "xxx", "y", "z", "v_1", "EX", "3", "w1", "u", "t", "s9"].iter().map(|s| s.to_string()).collect();
+        if let Some(h) = g.rename_per_binder(rng, &pool) {
+            if bound_names(&h).len() > f.quant_depth() {
+                kinds.push("rewrite_renaming_more_names_than_depth");
+            }
+            g = h;
+            kinds.push("rewrite_renaming_per_binder");
+        }
+    }
     let mut style = Style::default();
     if rng.coin() {
         style.extra_blanks = true;
@@ -150,7 +162,9 @@ fn run(rng: &mut Rng, idx: u64, tier: Tier) -> CaseOut {
         out.count(k);
     }
     let detail = |why: &str| case_json(&world, &[text.clone(), rewritten.clone()], vec![("rewrites", J::s(&kinds.join(","))), ("context_sets", sets_json(&world, &sets)), ("why", J::s(why))]);
-    for ep in [Ep::ExtendedDirty, Ep::Extended] {
+    // plain formulae go through the plain entry points half of the time (they have their own validation path)
+    let eps = if !extended && rng.coin() { [*rng.pick(&[Ep::FormulaDirty, Ep::TreeDirty, Ep::MultipleDirty]), *rng.pick(&[Ep::Formula, Ep::Multiple, Ep::Tree])] } else { [Ep::ExtendedDirty, Ep::Extended] };
+    for ep in eps {
         let a = run_ep(ep, &text, &sys, &ctx);
         let b = run_ep(ep, &rewritten, &sys, &ctx);
         match (a, b) {
@@ -163,7 +177,7 @@ fn run(rng: &mut Rng, idx: u64, tier: Tier) -> CaseOut {
                     );
                     return out;
                 }
-                if ep == Ep::ExtendedDirty {
+                if !ep.sanitized() {
                     let unit = sys.graph.unit_colored_vertices();
                     out.nontrivial = !ra.is_empty() && &ra != unit && text != rewritten;
                 }
